@@ -55,6 +55,8 @@ def items(tier):
     for which in ("max", "min"):
         for agg in ("PNorm2", "KS", "SoftMinMax"):
             out.append(dict(kind="scaling", id="scaling-%s-%s-n3-activeset" % (agg, which), n=3, which=which, agg=agg, active=True))
+    out.append(dict(kind="scaling", id="scaling-KS-max-n3-varying-length", n=3, which="max", agg="KS", varlen=True))
+    out.append(dict(kind="scaling", id="scaling-PNorm2-min-n2-varying-length", n=2, which="min", agg="PNorm2", varlen=True))
     for n in b["bounds_n"]:
         for sgn in (+1, -1):
             out.append(dict(kind="bound-softminmax", id="bound-softminmax-n%d-%s" % (n, "pos" if sgn > 0 else "neg"), n=n, sgn=sgn))
@@ -180,7 +182,10 @@ def sc_scaling(V, P, cfg):
     n, which, agg = cfg["n"], cfg["which"], cfg["agg"]
     d = V.real("d", lo=0, hi="0.9375")
     nresp = 1 if cfg.get("active") else 3        # (with an active set every response forks over the 6 orderings)
-    xs = [V.reals("x%d" % k, n, positive=True) for k in range(nresp)]
+    # `varlen`: the number of values changes between the responses (a value band of an active set, a re-meshed input): the
+    # damped recurrence carries over whatever the lengths are
+    lens_ = [n, max(1, n - 1), n] if cfg.get("varlen") else [n] * 3
+    xs = [V.reals("x%d" % k, lens_[k], positive=True) for k in range(nresp)]
     sig = pym.Signal("x")
     sc = pym.AggScaling(which, damping=d)
     akw = {}
